@@ -124,6 +124,17 @@ def pool(cfg, t):
         out.append(("pitch_too_high_first", tracks(lib.seq_abs([(0, vm, hi + 1, 0, 64), (24, vm, hi, 0, 64), (48, vm, lo, 0, 64), (72, vm, hi, 0, 9)]))))
     if lo > 0:
         out.append(("pitch_too_low_in_the_middle", tracks(lib.seq_abs([(0, vm, hi, 0, 64), (24, vm, lo - 1, 0, 64), (48, vm, hi, 0, 64)]))))
+    z = lib.seq_abs([(0, vm, lo, 0, 64)])
+    z.add_absolute_message(lib.on(24, hi, 0, 0))          # a note-on whose velocity field is 0
+    z.add_absolute_message(lib.off(24 + vm, hi, 0))
+    out.append(("note_on_with_velocity_zero", tracks(z)))
+    if 2 * vm in vals or True:
+        f = lib.seq_abs([(0, 2 * vm, lo, 0, 64), (4 * vm, 2 * vm, hi, 0, 64)], [("ts", 0, 4, 4)], 192)
+        try:
+            f.scale(0.5, quantise_afterwards=False)        # integral float ticks (12.0): still an input tokenise accepts
+            out.append(("float_ticks_from_halving", tracks(f)))
+        except Exception:  # noqa: BLE001
+            pass
     odd = next(x for x in (5, 7, 10, 11, 13) if x not in vals)
     out.append(("value_not_allowed_in_the_middle", tracks(lib.seq_abs([(0, vm, lo, 0, 64), (24, odd, hi, 0, 64), (48, vm, lo, 0, 64)]))))
     bars = Sequence.sequences_split_bars([lib.seq_abs([(0, vm, lo, 0, 64), (72 + 24, vm, hi, 0, 90)], [("ts", 0, 3, 4)])], 0)[0]
